@@ -156,6 +156,25 @@ def registry(seed=0, want_text=False):
     E["PsbtOut.parse"].seeds += [o.serialize() for o in p.outputs[:2]]
     E["var_int.parse"].prefix = True
     E["var_bytes.parse"].prefix = True
+    # BIP158 filters carry no length of their own: the parser must reach the end of the octets exactly.  Seeds whose bit
+    # stream ends on an octet boundary (N = 0; two 20-bit codes) are the ones where a spare octet is not "padding"
+    from btclib.block.block_filter import BasicBlockFilter
+    fblk = block_from([coinbase_tx(1, [b"\x51"])], mine=False)
+    def gcs_bytes(f, P=19):
+        """The one encoding BIP158 gives the decoded set: CompactSize N, Golomb-Rice deltas, zero padding to the octet."""
+        vals = sorted(f.element_hashes)
+        bits, last = [], 0
+        for v in vals:
+            d, last = v - last, v
+            bits += [1] * (d >> P) + [0] + [(d >> (P - 1 - i)) & 1 for i in range(P)]
+        bits += [0] * (-len(bits) % 8)
+        n = len(vals)
+        pre = bytes([n]) if n < 0xFD else b"\xfd" + n.to_bytes(2, "little")
+        return pre + bytes(int("".join(map(str, bits[i:i + 8])), 2) for i in range(0, len(bits), 8))
+
+    E["BasicBlockFilter.parse"] = Entry("BasicBlockFilter.parse", lambda b, h=fblk.header.hash: BasicBlockFilter.parse(b, h), gcs_bytes,
+                                        [b"\x00", bytes.fromhex("02000010000100"), bytes.fromhex("0100001000"), BasicBlockFilter.from_block(fblk, []).serialize(),
+                                         BasicBlockFilter.from_block(segwit_block(2, 2, [[b"\x51"], [b"\x52"]]), [b"\x53", b"\x54"]).serialize()])
     from btclib.exceptions import BTClibRuntimeError, BTClibTypeError, BTClibValueError
     for e in E.values():
         keep = []
